@@ -1021,15 +1021,27 @@ impl Element {
                             }),
                             Value::Dynamic { expression, .. } => {
                                 let p = expression.to_proc_gen_prepare(w, scopes)?;
+                                // data that is not written as an object literal (`data="{{ (o) }}"`) may be
+                                // null, and its update path tree may be missing: the sub-template reads both
+                                let is_lit_obj =
+                                    matches!(&**expression, crate::parse::expr::Expression::LitObj { .. });
                                 w.expr_stmt(|w| {
                                     write!(
                                         w,
                                         "if({}&&{}){}(R,C,",
                                         var_key, var_target, var_target
                                     )?;
-                                    p.value_expr(w)?;
-                                    write!(w, ",K||(U?")?;
-                                    p.lvalue_state_expr(w, scopes, true)?;
+                                    if is_lit_obj {
+                                        p.value_expr(w)?;
+                                        write!(w, ",K||(U?")?;
+                                        p.lvalue_state_expr(w, scopes, true)?;
+                                    } else {
+                                        write!(w, "X(")?;
+                                        p.value_expr(w)?;
+                                        write!(w, "),K||(U?(")?;
+                                        p.lvalue_state_expr(w, scopes, true)?;
+                                        write!(w, ")||Object.create(null)")?;
+                                    }
                                     write!(w, ":Object.create(null))).C(C,T,E,B,F,S,J)")?;
                                     Ok(())
                                 })
